@@ -140,6 +140,31 @@ def run(ctx, spec):
             ctx.case("synthetic", key=(kind, n_on, n_off, str(dtype), rc, float(C.flat[1])), nontrivial=n_off >= 1, sample=wit)
             R = pure_call(ctx, "create_tomographic_covariance_reconstructor", fn, C, n_on, rc) if rc != 0.0 or rng.random() < 0.5 else fn(C, n_on)
             judge(ctx, R, C, n_on, rc, wit, "reconstructor")
+    # ---------------- a large system (hundreds of slopes, single precision, default zero conditioning) ----------------
+    if spec["shard"] < 4 or spec["n_e2e"] > 2:
+        n, nw, Dt = 8, 5, 8.0
+        m = aotools.circle(n / 2.0, n)
+        spread = float(rng.uniform(8, 25))
+        pos = [[0.0, 0.0]] + [[float(v) for v in rng.uniform(-spread, spread, 2)] for _ in range(nw - 1)]
+        which = int(rng.integers(1, nw))
+        pos[which] = list(pos[0])
+        cfg = {"n_wfs": nw, "pupil_masks": [m] * nw, "telescope_diameter": Dt, "subap_diameters": [Dt / n] * nw, "gs_altitudes": [0.0] * nw,
+               "gs_positions": pos, "wfs_wavelengths": [5e-7] * nw, "n_layers": 2, "layer_altitudes": [0.0, float(rng.uniform(4000, 12000))],
+               "layer_r0s": [0.15, 0.3], "layer_L0s": [25.0, 25.0]}
+        obj = slopecfg.construct(aotools, cfg)
+        M = obj.make_covariance_matrix()
+        R = np.asarray(obj.make_tomographic_reconstructor(), dtype=np.float64)
+        ns = int(2 * m.sum())
+        ev = np.linalg.eigvalsh(M[ns:, ns:].astype(np.float64))
+        cond = float(ev.max() / max(ev.min(), 1e-300))
+        wl = {"slopes": int(M.shape[0]), "cond": cond, "duplicate": which, "spread_arcsec": spread}
+        ctx.case("end_to_end_large", key=("large", spread, which), nontrivial=True, sample=wl)
+        ctx.count("large_systems")
+        if cond * 1.2e-7 < 0.05:
+            sel = np.zeros(R.shape)
+            sel[:, (which - 1) * ns:which * ns] = np.eye(ns)
+            ctx.metric("duplicate_selector_err/(eps32 cond)", float(np.abs(R - sel).max() / (1.2e-7 * cond)))
+            ctx.close("duplicate_sensor_selector_large", R, sel, 2 * 1.2e-7 * cond + 1e-6, "duplicate_sensor:not_selector:large_system", wl)
     # ---------------- end to end through the class, with histories ----------------
     for j in range(spec["n_e2e"]):
         n = int(rng.integers(2, 5))
@@ -199,7 +224,8 @@ def run(ctx, spec):
             ev = np.linalg.eigvalsh(M[2 * n0:, 2 * n0:].astype(np.float64))
             cond = float(ev.max() / max(ev.min(), 1e-300))
             if cond * 1.2e-7 < 0.02:
-                ctx.close("duplicate_sensor_selector", np.asarray(R, float), sel, 50 * 1.2e-7 * cond + 1e-6, "duplicate_sensor:not_selector:step%s" % ("0" if step == 0 else "N"), dict(wit, step=step, cond=cond))
+                ctx.metric("duplicate_selector_err/(eps32 cond)", float(np.abs(np.asarray(R, float) - sel).max() / (1.2e-7 * cond)))
+                ctx.close("duplicate_sensor_selector", np.asarray(R, float), sel, 2 * 1.2e-7 * cond + 1e-6, "duplicate_sensor:not_selector:step%s" % ("0" if step == 0 else "N"), dict(wit, step=step, cond=cond))
                 judge(ctx, R, M, n0, rc, dict(wit, step=step), "end_to_end")
             # change the configuration drastically (the duplicate relation is kept) and go round again
             if rng.random() < 0.6:
